@@ -570,14 +570,18 @@ func perIterationOverField(c *report.Ctx, f *ssa.Function, named *types.Named, f
 	}
 	p := c.P
 	construct := sk(f) + "=>each-" + fname + ":" + what
+	// the loop meant is one that ranges over the field (an element access inside a loop); an access outside any loop
+	// (a look at element 0 before the loop) is not it
 	var start ssa.Instruction
 	an.Instrs(f, func(in ssa.Instruction) {
 		ia, ok := in.(*ssa.IndexAddr)
 		if !ok || start != nil {
 			return
 		}
-		if ld, ok := ia.X.(*ssa.UnOp); ok && isFieldLoad(ld, named, fname) {
-			start = in
+		if ld, ok := ia.X.(*ssa.UnOp); ok && isFieldLoad(ld, named, fname) && loopHeaderOf(in.Block()) != nil {
+			if _, isConst := ia.Index.(*ssa.Const); !isConst {
+				start = in
+			}
 		}
 	})
 	if start == nil {
@@ -585,10 +589,6 @@ func perIterationOverField(c *report.Ctx, f *ssa.Function, named *types.Named, f
 		return
 	}
 	hdr := loopHeaderOf(start.Block())
-	if hdr == nil {
-		c.Fail(construct, "the element access of "+fname+" is not inside a loop", posOf(c, start))
-		return
-	}
 	idx := 0
 	for i, in := range start.Block().Instrs {
 		if in == start {
